@@ -240,9 +240,11 @@ class Repo:
                 parsed[fn] = self._parse(fn)
         self.renamed_back: Dict[str, str] = {}
         if os.environ.get('VERIF_NO_NORMALIZE') != '1':
-            from .renames import canonical_imports, desugar_match, inline_decorators, materialise_properties, specialise_mixins, undo_renames
+            from .renames import (canonical_imports, desugar_match, inline_decorators, materialise_dataclass_init, materialise_properties,
+                                  specialise_mixins, undo_renames)
             trees_ = {fn[:-3]: t[3] for fn, t in parsed.items()}
             self.match_statements = desugar_match(trees_)
+            self.dataclass_inits = materialise_dataclass_init(trees_)
             self.canonical_imports = canonical_imports(trees_, PKG)
             self.renamed_back = undo_renames(trees_)
             self.specialised = specialise_mixins(trees_)
@@ -596,15 +598,16 @@ class Repo:
             return True
         decos = [ast.unparse(d) for d in c.node.decorator_list]
         if any(d.split('(')[0].split('.')[-1] == 'dataclass' for d in decos):
-            if not c.methods:
+            own = {k: v for k, v in c.methods.items() if not getattr(v.node, '_dataclass_synth', False)}
+            if not own:
                 return True
             # a frozen dataclass whose methods only read it (``__iter__`` for unpacking, ``__str__``, derived properties): still
             # fully described by its constructor call
             frozen = any('frozen=True' in d.replace(' ', '') for d in decos)
             hooks = {'__init__', '__post_init__', '__new__', '__setattr__', '__getattr__', '__getattribute__', '__eq__', '__hash__'}
             writes = any(isinstance(n, ast.Attribute) and isinstance(n.ctx, (ast.Store, ast.Del)) and isinstance(n.value, ast.Name)
-                         and n.value.id == 'self' for m_ in c.methods.values() for n in ast.walk(m_.node))
-            if frozen and not (hooks & set(c.methods)) and not writes and not c.setters:
+                         and n.value.id == 'self' for m_ in own.values() for n in ast.walk(m_.node))
+            if frozen and not (hooks & set(own)) and not writes and not c.setters:
                 return True
         return False
 
